@@ -250,7 +250,9 @@ class Checker:
 
     def fail(self, clause, detail, **features):
         if self.phase != 'fresh':
-            features['phase'] = self.phase
+            # whatever moved, moved because of a mutation attempt: one
+            # signature per clause
+            features = {'phase': self.phase}
         raise Violation(clause, detail, **features)
 
     def compare(self):
@@ -401,7 +403,6 @@ def mutation_attempts(root, snap, chk):
         existing = list(node.entries)
         absent = [n for n in NAMES if n not in node.entries][:2] + ['zz',
                                                                    'z z']
-        before = {n: s.get(n) for n in existing}
         targets = ([('existing', n) for n in existing]
                    + [('new', n) for n in absent]
                    + [('handle_names', '_handle_names')])
@@ -423,18 +424,6 @@ def mutation_attempts(root, snap, chk):
                         f'{verb}attr(snapshot[{where}], {name!r}) did not '
                         f'raise', verb=verb, target=what, level=level,
                         name=name_class(name))
-                # local look: nothing moved on this node
-                for n, old in before.items():
-                    try:
-                        now = s.get(n)
-                    except Exception:
-                        now = None
-                    if now is not old:
-                        raise Violation(
-                            'mutation_changes_nothing',
-                            f'after {verb}attr(snapshot[{where}], {name!r}) '
-                            f'get({n!r}) changed', verb=verb, target=what,
-                            level=level, name=name_class(name))
 
 
 def locate_build_failure(root):
